@@ -10,6 +10,9 @@ R04.4 an offset is supplied once: no sequence-constructor call passes a view tha
       carries its own coordinates together with a non-zero annotation_offset
 R04.5 a sequence derived from a realised string carries the receiver's own
       annotation offset in its annotation_offset
+
+Added in build round 2 (see DESIGN.md section 3, round-2 table):
+R04.6 make_feature relates each span of a feature to the half-open range [0, len(self)) of the view: on EVERY weak ordering of (span start, span end, 0, ...
 """
 
 from __future__ import annotations
